@@ -11,6 +11,9 @@ func propC18(c *Ctx, r *Report) {
 		"size/offset arithmetic of the container, abbreviation widths, operand indices, signature/PSV consistency, hash correctness")
 	c.runBalance(r, "pairing.bitcode", bitcodeBracket)
 	r.Clauses = append(r.Clauses, "sibling semantic tables (E74): the tables that name the system-value semantic of a built-in (signature parts, PSV0 elements, metadata) give a built-in the same SV_ name, and a built-in named by two of them has an arm in the others")
+	r.Clauses = append(r.Clauses, builtinDirClause)
+	c.runBuiltinDirection(r, "builtin.direction", inPkgs("dxil"))
+	r.floor("builtin.direction", 2)
 	c.runSemanticSiblings(r, "semantic.siblings", inPkgs("dxil"), nil)
 	r.floor("semantic.siblings", 15)
 	r.floor("semantic.tables", 3)
